@@ -34,7 +34,7 @@ func init() {
 			if tier == "quick" {
 				return 48
 			}
-			return 2400
+			return 1200
 		},
 		Workers: 8,
 		Race:    true,
